@@ -21,6 +21,7 @@ type QueryInput struct {
 	ScanIndexForward          bool
 	Scan                      bool
 	started                   bool
+	startGone                 bool
 }
 
 // Table struct to mock a dynamodb table
@@ -270,7 +271,23 @@ func (t *Table) fetchQueryData(input QueryInput) (*index, []string) {
 	return nil, t.SortedKeys
 }
 
-func prepareSearch(input *QueryInput, index *index, k, startKey string) (string, bool) {
+// passedStartKey tells whether the entry (k, pk) lies after the exclusive start key in iteration order.
+// It makes resuming work when the item named by the start key has been deleted in the meantime.
+func passedStartKey(input *QueryInput, index *index, k, pk, startKey, startIndexKey string) bool {
+	after, before := pk > startKey, pk < startKey
+
+	if index != nil && k != startIndexKey {
+		after, before = k > startIndexKey, k < startIndexKey
+	}
+
+	if input.ScanIndexForward {
+		return after
+	}
+
+	return before
+}
+
+func prepareSearch(input *QueryInput, index *index, k, startKey, startIndexKey string) (string, bool) {
 	pk, ok := getPrimaryKey(index, k)
 	if !ok {
 		return pk, ok
@@ -282,6 +299,14 @@ func prepareSearch(input *QueryInput, index *index, k, startKey string) (string,
 
 	if pk == startKey {
 		input.started = true
+
+		return "", false
+	}
+
+	if input.startGone && passedStartKey(input, index, k, pk, startKey, startIndexKey) {
+		input.started = true
+
+		return pk, true
 	}
 
 	return "", false
@@ -333,7 +358,15 @@ func (t *Table) SearchData(input QueryInput) ([]map[string]*types.Item, map[stri
 	index, sortedKeys := t.fetchQueryData(input)
 
 	startKey := t.parseStartKey(t.KeySchema, exclusiveStartKey)
+	startIndexKey := ""
+
+	if index != nil {
+		startIndexKey = t.parseStartKey(index.keySchema, exclusiveStartKey)
+	}
+
 	input.started = startKey == ""
+	_, startExists := t.Data[startKey]
+	input.startGone = !startExists
 	last := map[string]*types.Item{}
 	sortedKeysSize := int64(len(sortedKeys))
 
@@ -347,7 +380,7 @@ func (t *Table) SearchData(input QueryInput) ([]map[string]*types.Item, map[stri
 	for pos := range sortedKeys {
 		k := GetKeyAt(sortedKeys, sortedKeysSize, int64(pos), forward)
 
-		pk, ok := prepareSearch(&input, index, k, startKey)
+		pk, ok := prepareSearch(&input, index, k, startKey, startIndexKey)
 		if !ok {
 			scanned++
 			continue
